@@ -249,7 +249,7 @@ static std::uint8_t h_read( std::uint8_t* mem, std::size_t n, std::size_t offset
     ++handler_calls;
     if ( offset > n ) return 0x07;
     out_size = n - offset < read_size ? n - offset : read_size;
-    std::memcpy( out, mem + offset, out_size );
+    if ( out_size ) std::memcpy( out, mem + offset, out_size );
     return 0;
 }
 static std::uint8_t h_write( std::uint8_t* mem, std::size_t n, std::size_t offset, std::size_t write_size, const std::uint8_t* value )
@@ -257,7 +257,7 @@ static std::uint8_t h_write( std::uint8_t* mem, std::size_t n, std::size_t offse
     ++handler_calls;
     if ( offset > n ) return 0x07;
     if ( offset + write_size > n ) return 0x0d;
-    std::memcpy( mem + offset, value, write_size );
+    if ( write_size ) std::memcpy( mem + offset, value, write_size );
     return 0;
 }""")
     mixin_needed = False
